@@ -297,8 +297,18 @@ pub fn scenario(seed: u64, opts: &Opts) -> Made {
                         resp.svcs[k].v6 = s2.v6.clone();
                     }
                 }
+                // sometimes right on the heels of a (re-)announcement of the old values: younger than a second, the old
+                // records are not flushed and stay live next to the new ones
+                let quick = !faulty && rng.chance(1, 3);
+                if quick {
+                    send(&mut w, &s.announce(), &mut rng);
+                    let d = 50 + rng.below(850);
+                    let mut cb = |w: &mut World| resp.react(w, h);
+                    let until = w.now() + d;
+                    w.run_until_cb(until, &mut cb);
+                }
                 send(&mut w, &s2.announce(), &mut rng);
-                desc.push_str(&format!(" @{t}:update{}{i}", if toggled_back { "-back" } else { "" }));
+                desc.push_str(&format!(" @{t}:{}update{}{i}", if quick { "quick-" } else { "" }, if toggled_back { "-back" } else { "" }));
             }
             5 | 6 => {
                 resp.gone[i] = true;
